@@ -425,24 +425,7 @@ pub fn run_once(def: &CheckDef, scn: &Scn) -> (Verdict, Ctx, u64) {
     (v, ctx, f.0)
 }
 
-pub fn run_check(def: &CheckDef, opts: &RunOpts) -> i32 {
-    let t0 = Instant::now();
-    let total = opts
-        .runs_override
-        .unwrap_or(if opts.tier_thorough { def.runs_thorough } else { def.runs_quick });
-    let tier = if opts.tier_thorough { "thorough" } else { "quick" };
-    println!(
-        "vsim check={} tier={} VERIF_SEED={} runs={} threads={}",
-        def.id, tier, opts.seed, total, opts.threads
-    );
-    let findings = match load_findings(&opts.root).and_then(|f| crate::findings::validate(&f).map(|_| f)) {
-        Ok(f) => f,
-        Err(e) => {
-            println!("HARNESS-ERROR: {}", e);
-            return 2;
-        }
-    };
-
+fn search(def: &CheckDef, opts: &RunOpts, total: u64) -> Acc {
     let next = AtomicU64::new(0);
     let acc = Mutex::new(Acc::new());
     const CHUNK: u64 = 32;
@@ -510,7 +493,28 @@ pub fn run_check(def: &CheckDef, opts: &RunOpts) -> i32 {
             });
         }
     });
-    let mut acc = acc.into_inner().unwrap();
+    acc.into_inner().unwrap()
+}
+
+pub fn run_check(def: &CheckDef, opts: &RunOpts) -> i32 {
+    let t0 = Instant::now();
+    let total = opts
+        .runs_override
+        .unwrap_or(if opts.tier_thorough { def.runs_thorough } else { def.runs_quick });
+    let tier = if opts.tier_thorough { "thorough" } else { "quick" };
+    println!(
+        "vsim check={} tier={} VERIF_SEED={} runs={} threads={}",
+        def.id, tier, opts.seed, total, opts.threads
+    );
+    let findings = match load_findings(&opts.root).and_then(|f| crate::findings::validate(&f).map(|_| f)) {
+        Ok(f) => f,
+        Err(e) => {
+            println!("HARNESS-ERROR: {}", e);
+            return 2;
+        }
+    };
+
+    let mut acc = search(def, opts, total);
     acc.failures.sort();
     acc.samples.sort_by_key(|s| s.0);
     acc.harness.sort();
@@ -822,4 +826,52 @@ pub fn replay(defs: &[CheckDef], path: &str, quiet: bool) -> i32 {
             2
         }
     }
+}
+
+
+/// batch fingerprint of runs 0..n of a check: xor of per-run fingerprints (order independent)
+pub fn batch_fingerprint(def: &CheckDef, seed: u64, runs: u64, threads: usize) -> (u64, u64) {
+    let opts = RunOpts { root: String::new(), tier_thorough: false, seed, threads, runs_override: Some(runs), quiet: true, control_out: None, control_in: None };
+    let acc = search(def, &opts, runs);
+    (acc.fp_xor, acc.failures.len() as u64 + acc.harness.len() as u64)
+}
+
+/// `vsim determinism`: every check, several seeds, twice in-process and in child processes at
+/// 1, 4 and 16 workers; all fingerprints of one (check, seed) must agree
+pub fn determinism(defs: &[CheckDef], runs: u64, seeds: &[u64]) -> i32 {
+    let exe = std::env::current_exe().ok();
+    let mut bad = 0;
+    for def in defs {
+        for &seed in seeds {
+            let mut fps: Vec<(String, u64)> = Vec::new();
+            for t in [1usize, 4, 16] {
+                fps.push((format!("in-process/{}w", t), batch_fingerprint(def, seed, runs, t).0));
+            }
+            fps.push(("in-process/16w again".into(), batch_fingerprint(def, seed, runs, 16).0));
+            for t in [1usize, 5, 16] {
+                let out = exe.as_ref().and_then(|e| {
+                    std::process::Command::new(e)
+                        .args(["fp", def.id, "--runs", &runs.to_string(), "--threads", &t.to_string(), "--seed", &seed.to_string()])
+                        .output()
+                        .ok()
+                });
+                let v = out.and_then(|o| String::from_utf8_lossy(&o.stdout).trim().parse::<u64>().ok());
+                match v {
+                    Some(v) => fps.push((format!("child/{}w", t), v)),
+                    None => {
+                        println!("HARNESS-ERROR: child fingerprint run failed for {}", def.id);
+                        bad += 1;
+                    }
+                }
+            }
+            let first = fps[0].1;
+            if fps.iter().any(|f| f.1 != first) {
+                println!("NONDETERMINISM: check={} seed={} fingerprints={:?}", def.id, seed, fps);
+                bad += 1;
+            } else {
+                println!("deterministic: check={} seed={} runs={} fingerprint={:016x} ({} executions compared)", def.id, seed, runs, first, fps.len());
+            }
+        }
+    }
+    if bad > 0 { 2 } else { 0 }
 }
